@@ -10,8 +10,9 @@ use core::sync::atomic::{AtomicBool, AtomicU32, Ordering};
 use sc::nr::MUNMAP;
 
 use crate::eprintln;
+use rusl::error::Errno;
 use rusl::platform::{CloneFlags, MapAdditionalFlags, MapRequiredFlag, MemoryProtection};
-use rusl::unistd::mmap;
+use rusl::unistd::{mmap, munmap};
 
 use crate::error::Result;
 use crate::sync::futex_wait_fast;
@@ -257,7 +258,7 @@ pub(crate) struct ThreadDealloc {
 
 /// Spawn a thread that will run the provided function
 /// # Errors
-/// Failure to mmap the thread's stack.
+/// Failure to mmap the thread's stack, or to create the thread.
 pub fn spawn<T, F>(func: F) -> Result<JoinHandle<T>>
 where
     F: FnOnce() -> T + Send + 'static,
@@ -301,7 +302,7 @@ where
             dealloc(get_tls_ptr().cast(), Layout::new::<ThreadLocalStorage>());
         }
     };
-    let (start_fn, fn_caller) = unsafe { onwed_split_fn_once(df) };
+    let (start_fn, fn_caller, drop_fn) = unsafe { onwed_split_fn_once(df) };
     // We need to double box here because
     // 1. We need to access through a box, because we can't cast into a *mut dyn FnOnce(), because
     // fat pointer.
@@ -341,7 +342,7 @@ where
         (*tls).self_addr = tls as usize;
     }
     #[expect(clippy::cast_possible_truncation)]
-    unsafe {
+    let clone_res = unsafe {
         __clone(
             start_fn,
             stack,
@@ -351,7 +352,22 @@ where
             tsm.get_futex().as_ptr() as usize,
             map_ptr,
             stack_sz,
-        );
+        )
+    };
+    if clone_res < 0 {
+        // No thread was created: nobody will ever run the closure, unmap the stack, or clear
+        // the futex, so a handle to it could never be joined. Release everything that was
+        // set up for the thread and report the error instead.
+        unsafe {
+            drop(Box::from_raw(tls));
+            let _ = munmap(map_ptr, NonZeroUsize::new_unchecked(size));
+            drop_fn(fn_caller);
+            tsm.dealloc();
+        }
+        return Err(crate::error::Error::os(
+            "Failed to clone a new thread",
+            Errno::new(-clone_res),
+        ));
     }
     Ok(JoinHandle {
         tsm,
@@ -360,10 +376,15 @@ where
 }
 
 #[inline]
-unsafe fn onwed_split_fn_once<F: FnOnce()>(f: F) -> (usize, usize) {
+unsafe fn onwed_split_fn_once<F: FnOnce()>(f: F) -> (usize, usize, unsafe fn(usize)) {
     let t = start_fn::<F>;
     let d = Box::into_raw(Box::new(f));
-    (t as usize, d as usize)
+    (t as usize, d as usize, drop_unstarted::<F>)
+}
+
+/// Drops a boxed closure produced by `onwed_split_fn_once` that was never handed to a thread.
+unsafe fn drop_unstarted<F: FnOnce()>(ptr: usize) {
+    drop(Box::from_raw(ptr as *mut F));
 }
 
 #[repr(C)]
